@@ -33,7 +33,7 @@ TRUSTED = ["hand model lean/AwsVerif/Model/Codec.lean of the portable code paths
            "from the source (Gen/CodecAvx2Consts.lean), masks and shift counts of pack_vec/encode_stride are transcribed by hand; the model is "
            "tied to the vector build by this correspondence run (P lines and the W lines of partial stores)",
            "Python stdlib base64/binascii and a 40-line RFC 3629 reference in the direct oracle"]
-ASSUMPTIONS = ["byte buffers passed in are valid (len <= capacity); on_codepoint callback succeeds; a caller stops feeding a decoder after an error",
+ASSUMPTIONS = ["byte buffers passed in are valid (len <= capacity); a caller stops feeding a decoder after an error (the decoder's or its callback's)",
                "UTF-8 validity is RFC 3629 *without* the U+10FFFF upper bound: the decoder accepts F4 90 80 80 .. F7 BF BF BF "
                "(c05_utf8_spec proves 'accepted = RFC 3629 grammar minus that bound'; c05_utf8_not_rfc3629 exhibits the witness; the "
                "property statement only demands chunking independence, so this is reported, not failed)",
@@ -333,6 +333,12 @@ def utf8_cases(rng, tier):
         for _ in range(3):
             parts = rand_chunks(rng, t)
             ops.append(("u8 " + " ".join(hx(p) for p in parts)).strip())
+    # on_codepoint returning an error on its k-th call (callback installed with and without user_data)
+    for _ in range(150 if tier == "quick" else 2000):
+        t = rand_text(rng, rng.choice([2, 4, 9, 17])) if rng.random() < 0.7 else rng.choice(singles) + b"z" + rng.choice(singles)
+        k = rng.choice([0, 0, 1, 2, 3, 7])
+        ops.append(("u8f %d " % k + " ".join(hx(p) for p in rand_chunks(rng, t))).strip())
+        ops.append(f"u8f {k} {hx(t)}")
     cases = chunked(ops, {"fam": "utf8"}, 60)
     # one decoder reused across texts: finalize / reset give a fresh decoder, also after an error
     for _ in range(200 if tier == "quick" else 2000):
@@ -611,9 +617,19 @@ def oracle(case, lines):
                     errs.append(f"{c}: call with impossible sizes succeeded")
                 if f.get("len") != str(_size(t[2])):
                     errs.append(f"{c}: failed call changed out.len")
-            elif name in ("u8", "u8one", "u8all"):
-                bs = b"".join(unhx(p) for p in t[1:])
+            elif name in ("u8", "u8one", "u8all", "u8f"):
+                bs = b"".join(unhx(p) for p in t[(2 if name == "u8f" else 1):])
                 ok, cps = utf8_ref(bs)
+                if "failcb" in f:
+                    # the callback fails on its k-th call: everything stops there with the callback's error
+                    k = int(f["failcb"])
+                    want_rc = "AWS_ERROR_INVALID_ARGUMENT" if len(cps) > k else ("OK" if ok else "AWS_ERROR_INVALID_UTF8")
+                    wantcps = ",".join("%x" % cp for cp in cps[:k + 1]) or "-"
+                    if rc != want_rc or f.get("cps") != wantcps:
+                        errs.append(f"{c}: callback failing on call {k}: got {rc} cps={f.get('cps')}, expected {want_rc} cps={wantcps}")
+                    if name == "u8all" and f.get("chunkdep") != "0":
+                        errs.append(f"{c}: result with a callback failing on call {k} depends on how the text is chunked")
+                    continue
                 wantcps = ",".join("%x" % cp for cp in cps) or "-"
                 mode = "without callback" if "nocb" in f else "with callback"
                 if (rc == "OK") != ok:
